@@ -28,6 +28,7 @@ func NewScheduler(r runner.Runner) *Scheduler {
 		pause:      50 * time.Millisecond,
 		taskRunner: r,
 	}
+	verifNewScheduler(s)
 
 	return s
 }
@@ -48,11 +49,13 @@ func (s *Scheduler) Schedule(g *scheduler.ExecutionGraph) error {
 	)
 
 	for !s.isDone(g) {
+		verifLoopTop(s, g)
 		if atomic.LoadInt32(&s.cancelled) == 1 {
 			break
 		}
 
 		for _, stage := range g.Nodes() {
+			verifVisit(s, stage)
 			status := stage.ReadStatus()
 			if status != scheduler.StatusWaiting {
 				continue
@@ -114,12 +117,14 @@ func (s *Scheduler) Schedule(g *scheduler.ExecutionGraph) error {
 	}
 
 	wg.Wait()
+	verifReturn(s)
 
 	return lastErr
 }
 
 // Cancel cancels executing tasks
 func (s *Scheduler) Cancel() {
+	verifCancel(s)
 	atomic.StoreInt32(&s.cancelled, 1)
 	s.taskRunner.Cancel()
 }
